@@ -121,4 +121,80 @@ jitter draw 1/2: ⌈0.5·10⌉ = 5 s. -/
 example : delay presetCritical 3 0 1 = 3 ∧ delay presetDefault 2 1 2 = 5 ∧
     retryDecision presetDefault true 6 1 2 = none := by decide
 
+/-! ## error filters: a plain string filter is a substring test -/
+
+theorem isInfix_append_left (p : List Char) (pre s : List Char) (h : isInfix p s = true) :
+    isInfix p (pre ++ s) = true := by
+  induction pre with
+  | nil => simpa using h
+  | cons c cs ih => simp [isInfix, ih]
+
+theorem isInfix_prefix (p post : List Char) : isInfix p (p ++ post) = true := by
+  cases hp : p ++ post with
+  | nil =>
+    have : p = [] := by
+      cases p with
+      | nil => rfl
+      | cons a as => simp at hp
+    simp [isInfix, this]
+  | cons c cs =>
+    have : p.isPrefixOf (c :: cs) = true := by
+      rw [← hp]; exact List.isPrefixOf_iff_prefix.mpr (List.prefix_append p post)
+    simp [isInfix, this]
+
+/-- `isInfix` is exactly "occurs as a contiguous piece". -/
+theorem C12_isInfix_iff (p s : List Char) :
+    isInfix p s = true ↔ ∃ pre post, s = pre ++ p ++ post := by
+  constructor
+  · intro h
+    induction s with
+    | nil =>
+      have : p = [] := by simpa [isInfix] using h
+      exact ⟨[], [], by simp [this]⟩
+    | cons c cs ih =>
+      simp only [isInfix, Bool.or_eq_true] at h
+      rcases h with h | h
+      · obtain ⟨post, hpost⟩ := List.isPrefixOf_iff_prefix.mp h
+        exact ⟨[], post, by simp [hpost]⟩
+      · obtain ⟨pre, post, e⟩ := ih h
+        exact ⟨c :: pre, post, by simp [e]⟩
+  · rintro ⟨pre, post, rfl⟩
+    rw [List.append_assoc]
+    exact isInfix_append_left p pre _ (isInfix_prefix p post)
+
+/-- **C12, string filters are literal.** A plain string filter makes every error retryable whose message contains the
+filter text as it stands - whatever characters it is made of (parentheses, dots, brackets, ...) - ... -/
+theorem C12_text_filter_literal (p pre post : String) (others : List MsgFilter) (ts : Option (List Bool)) :
+    retryable (some (.text p :: others)) ts (pre ++ p ++ post) = true := by
+  have h : isInfix p.toList (pre.toList ++ (p.toList ++ post.toList)) = true :=
+    (C12_isInfix_iff _ _).mpr ⟨pre.toList, post.toList, by simp⟩
+  simp [retryable, msgHit, h]
+
+/-- ... and, on its own, no error whose message does not contain it. -/
+theorem C12_text_filter_only (p msg : String) (h : ¬ ∃ pre post, msg.toList = pre ++ p.toList ++ post) :
+    retryable (some [.text p]) (some []) msg = false := by
+  have : isInfix p.toList msg.toList = false := by
+    cases hh : isInfix p.toList msg.toList with
+    | false => rfl
+    | true => exact absurd ((C12_isInfix_iff _ _).mp hh) h
+  simp [retryable, msgHit, this]
+
+/-- Explicitly empty filters: nothing is retried; no filter given at all: everything is (the default pattern `.*`);
+a type filter alone does not bring the default message pattern back. -/
+theorem C12_filter_defaults (msg : String) (ts : List Bool) :
+    retryable (some []) (some []) msg = false ∧ retryable none none msg = true ∧
+    retryable none (some ts) msg = ts.any id := by
+  simp [retryable, msgHit]
+
+/-- The filters only decide *whether* to retry; with a retryable error the decision is the delay of the attempt. -/
+theorem C12_retryable_gives_delay (c : Cfg) (fs : Option (List MsgFilter)) (ts : Option (List Bool)) (msg : String)
+    (a jn jd : Nat) (ha : a < c.maxAttempts) (hr : retryable fs ts msg = true) :
+    retryDecision c (retryable fs ts msg) a jn jd = some (delay c a jn jd) := by
+  simp [retryDecision, hr, Nat.not_le.mpr ha]
+
+example : retryable (some [.text "HTTP 503 (Service Unavailable)"]) none "upstream said: HTTP 503 (Service Unavailable)" = true ∧
+    retryable (some [.text "v1.5"]) (some []) "model v105 done" = false ∧
+    retryable (some [.text ""]) (some []) "" = true ∧
+    retryable (some [.text "a"]) (some []) "" = false := by decide
+
 end C12S
